@@ -293,6 +293,8 @@ func runC10(c *Ctx, pr *PropertyRun) {
 	// what is decoded for one property type is not another type's cached answer
 	cacheKeysRule(c, pr, "C10")
 	addressableMarshalersRule(c, pr, "C10")
+	redirectCodesRule(c, pr, "C10")
+	locationAlwaysRule(c, pr, "C10")
 	// tags, dates and hrefs are written and read by inverse pairs, in the
 	// multistatus and in the headers (shared with C16.pairs)
 	c16Pairs(c, pr, "C10", func(what string) bool {
@@ -854,6 +856,15 @@ func runC05(c *Ctx, pr *PropertyRun) {
 	// FileSystem options (the tables of C01, repeated here so that the end to
 	// end claim 'exactly the requested options' is decided by this check)
 	c01Dispatch(c, pr, "C05")
+	// the server's listing: the collection and its members, each once,
+	// whatever order the file system lists them in (shared with C11.scope)
+	{
+		sl := NewRule("C05", "C05.server-listing", "backend.PropFind emits one response per entry the file system lists (the collection itself included by the file system), for every Depth (E2)")
+		sl.Exhaustive = true
+		pr.Rules = append(pr.Rules, sl)
+		c11WebdavScope(c, sl)
+	}
+	tempPatternRule(c, pr, "C05")
 	c01Adapter(c, pr, "C05")
 }
 
